@@ -60,6 +60,23 @@ ROWS = {
   note='translator harness/translate/rmcp.py; digest function is a parameter of the theorems, hashlib.md5 is trusted and '
        'cross-checked against a Lean RFC 1321 implementation; CPython struct/array semantics modelled',
   tech='Lean 4 proof (byte-level refinement to the packet figure) + translator + differential correspondence through a fake socket'),
+ 'C06': dict(
+  text='18 Lean theorems about the model of establish_session / the retry loop / requests / close_session against a '
+       'reference IPMI v1.5 BMC session state machine: handshake order against ANY peer (ping, Get Channel Auth '
+       'Capabilities, Get Session Challenge, Activate Session, Set Session Privilege Level; each at most '
+       'max_retries+1 times); for every conforming BMC configuration, every number of requests n and every loss '
+       'pattern within max_retries the BMC never objects, the first three datagrams are outside any session, '
+       'activation uses the temporary id and echoes the challenge, user and privilege as configured, all in-session '
+       'datagrams (retransmissions included) carry the granted id, the chosen type and consecutive sequence numbers '
+       'from inside the acceptance window with 0 skipped on 32-bit wrap, Close Session names the granted id; the '
+       'authentication choice is the strongest of offered-and-implemented for every capability byte, over the '
+       'preference tuple and the implemented set regenerated from messaging.py / rmcp.py on every run.',
+  note='translator harness/translate/rmcp.py; hand-written model Model/Session.lean tied per datagram byte for byte (the '
+       'real Rmcp talks through a fake socket to the compiled Lean reference BMC, the same script is replayed to the '
+       'model); reference BMC Spec/BmcSession.lean is a reading of IPMI v1.5 6.11-6.12; digest function is a parameter; '
+       'random.randrange pinned; keep-alive off (C14), stale frames C04; per-step fault stopping points are checked '
+       'by the run, proved only in the any-peer form',
+  tech='Lean 4 proof (induction on losses and on n, invariants Live/Chain over a relay abstraction; decide over generated preference tuple) + translator + closed-loop correspondence against the Lean reference BMC'),
  'C09': dict(
   text='Lean theorems for routing paths of every length: the bridged request is a nest of Send Message layers (one per '
        'hop, right bridge address, channel, tracking bit, valid checksums) whose innermost frame is the original '
@@ -175,7 +192,6 @@ ROWS = {
 }
 
 NOT_YET = {
- 'C06': 'check runs (real session setup against a Lean reference BMC) but its Lean theorems are not finished; not claimed until they are',
  'C07': 'check runs (real API against a Lean reference BMC, 30+ operations) but the refinement theorems are not finished; not claimed until they are',
 }
 
